@@ -44,6 +44,10 @@ class _SocketHub:
         # mark of a later socket that uses the same key.
         self._remote_sockets: Dict[thread_socket.socket.T_ThreadSocketKey, int] = {}
         self._marks = count(1)
+        # Per key: mark of the socket object that the key currently belongs to. Another
+        # object with the same key (an earlier socket that is released late, a socket
+        # whose connect timed out) does not disconnect it.
+        self._owners: Dict[thread_socket.socket.T_ThreadSocketKey, int] = {}
 
         self._messages: Dict[
             thread_socket.socket.T_ThreadSocketKey,
@@ -73,17 +77,24 @@ class _SocketHub:
         with self._lock:
             self._add_callbacks(socket)
             self._open_sockets.add(socket.key)
-            self._remote_sockets[socket.key] = next(self._marks)
+            mark = next(self._marks)
+            self._remote_sockets[socket.key] = mark
+            self._owners[socket.key] = mark
+            socket._own_mark = mark  # type: ignore
 
         try:
             self._wait_for_remote(socket, timeout=timeout)
         except TimeoutError:
             # This socket never got connected and there will be no disconnect for it:
             # do not leave it behind for a remote socket that is opened later to find.
-            self._open_sockets.discard(socket.key)
-            self._remote_sockets.pop(socket.key, None)
-            self._recv_callbacks.pop(socket.key, None)
-            self._conn_lost_callbacks.pop(socket.key, None)
+            with self._lock:
+                if self._owners.get(socket.key) == mark:
+                    del self._owners[socket.key]
+                    self._open_sockets.discard(socket.key)
+                    if self._remote_sockets.get(socket.key) == mark:
+                        del self._remote_sockets[socket.key]
+                    self._recv_callbacks.pop(socket.key, None)
+                    self._conn_lost_callbacks.pop(socket.key, None)
             raise
 
     def _add_callbacks(self, socket: thread_socket.ThreadSocket) -> None:
@@ -98,6 +109,13 @@ class _SocketHub:
         """Disconnect a socket"""
         method = None
         with self._lock:
+            own_mark = getattr(socket, "_own_mark", None)
+            if own_mark is None or self._owners.get(socket.key) != own_mark:
+                # Not (or no longer) the socket this key belongs to: it never got as far
+                # as connecting, gave up connecting, was disconnected before, or its
+                # key has been taken over by a newer socket, which stays connected.
+                return
+            del self._owners[socket.key]
             conn_lost_callback = self._conn_lost_callbacks.get(socket.remote_key)
             if conn_lost_callback is not None:
                 method = conn_lost_callback()
